@@ -150,6 +150,21 @@ func drive(d *mon.Driver, replay string) int {
 		d.Event("race_reports_raw", len(reps))
 		inProc := map[string]*raceReport{}
 		inProcCount := map[string]int{}
+		// A stack that could not be restored (or whose risor function was not recorded) leaves one
+		// side of the pair unknown. Such a report is counted under the complete signature of the same
+		// process that shares its known side, if there is one; otherwise it keeps "-" for that side.
+		completeBySide := map[string]string{}
+		for i := range reps {
+			a, b := innermostRisor(reps[i].A), innermostRisor(reps[i].B)
+			if a != "" && b != "" {
+				sig := reps[i].signature()
+				for _, side := range []string{a, b} {
+					if old, ok := completeBySide[side]; !ok || sig < old {
+						completeBySide[side] = sig
+					}
+				}
+			}
+		}
 		for i := range reps {
 			r := &reps[i]
 			if !r.hasRisorFrame() {
@@ -161,6 +176,12 @@ func drive(d *mon.Driver, replay string) int {
 			}
 			d.Event("race_reports_with_risor_frame", 1)
 			sig := r.signature()
+			if a, b := innermostRisor(r.A), innermostRisor(r.B); a == "" || b == "" {
+				d.Event("race_reports_with_one_stack_without_risor_frame", 1)
+				if full, ok := completeBySide[a+b]; ok {
+					sig = full
+				}
+			}
 			if inProc[sig] == nil {
 				inProc[sig] = r
 			}
